@@ -5,6 +5,7 @@ import (
 	"go/constant"
 	"go/token"
 	"go/types"
+	"os"
 	"sort"
 	"strings"
 
@@ -726,6 +727,22 @@ func ruleLayerOrder(c *Ctx, dv *dev) {
 	if !c.Require(header != nil, rule, "device.handleOpenrgb/refresh-loop", "refresh loop not found") {
 		return
 	}
+	// the loop is the union of the natural loops of all back edges to this header (a `continue` is its own back edge)
+	for _, p := range header.Preds {
+		if !header.Dominates(p) {
+			continue
+		}
+		stack := []*ssa.BasicBlock{p}
+		for len(stack) > 0 {
+			x := stack[len(stack)-1]
+			stack = stack[:len(stack)-1]
+			if body[x] {
+				continue
+			}
+			body[x] = true
+			stack = append(stack, x.Preds...)
+		}
+	}
 	// SCCs of the body without edges into the header
 	succs := func(b *ssa.BasicBlock) []*ssa.BasicBlock {
 		var out []*ssa.BasicBlock
@@ -1059,6 +1076,46 @@ func ruleLayerOrder(c *Ctx, dv *dev) {
 			}
 		}
 		c.Check(bad == "", rule, key, pos, "every "+o[0]+" write precedes every "+o[1]+" write in the refresh loop body", bad)
+	}
+	// R17.9 every refresh iteration sends the frame it computed: each way back to the loop header passes the UpdateLEDs
+	// call, unless the skip is decided by comparing the computed frame itself with what was sent before (any coarser
+	// "nothing changed" test - counts, a state summary - misses changes that keep the summary equal)
+	{
+		vw := NewFnView(c.P, root)
+		skipBad := ""
+		for _, p := range header.Preds {
+			if os.Getenv("HIDI_DEBUG") != "" {
+				fmt.Printf("DEBUG R17.9 header=%d pred=%d inBody=%v updBlock=%d dom=%v\n", header.Index, p.Index, body[p], upd.Block().Index, blockDominatesOrSame(upd.Block(), p))
+			}
+			if !body[p] || blockDominatesOrSame(upd.Block(), p) {
+				continue
+			}
+			// a back edge that bypasses the send: acceptable only under a guard that reads the frame
+			frameGuard := false
+			for _, a := range vw.GuardsAt(p) {
+				if a.Instr == nil || !body[a.Instr.Block()] {
+					continue // only decisions taken inside the refresh loop
+				}
+				if a.Cond.Any(func(x *Term) bool {
+					if x.Type == nil {
+						return false
+					}
+					if sl, ok := x.Type.Underlying().(*types.Slice); ok {
+						if n, ok := sl.Elem().(*types.Named); ok && n.Obj().Name() == "Color" {
+							return true
+						}
+					}
+					return false
+				}) {
+					frameGuard = true
+				}
+			}
+			if !frameGuard {
+				last := p.Instrs[len(p.Instrs)-1]
+				skipBad = "an iteration of the refresh loop returns to the loop header without sending the frame (" + c.P.Pos(last.Pos()) + ") and the skip is not decided by comparing the computed frame with the previous one: state changes that the skip test does not see are never shown"
+			}
+		}
+		c.Check(skipBad == "", "R17.9", "device.handleOpenrgb/every-iteration-sends-its-frame", pos, "every back edge of the refresh loop is dominated by UpdateLEDs (or skips under a comparison of the frame itself)", skipBad)
 	}
 	// everything is painted before the frame is sent
 	bad := ""
